@@ -1161,7 +1161,11 @@ func TestC16(t *testing.T) {
 		addressTable(fail)
 		simkit.Global.Inc("address_tables_checked")
 		heads := 0
-		return Hooks{AfterHead: func(w *World, n *Node, bi *BlockInfo, reorg bool) {
+		return Hooks{End: func(w *World) {
+			if fixedLocationFinding != "" {
+				fail("address-classification", "path=location-less-decoders classified-as-zone-0-0", fixedLocationFinding)
+			}
+		}, AfterHead: func(w *World, n *Node, bi *BlockInfo, reorg bool) {
 			checkScopes(n, bi, fail)
 			// the validator's own Qi path (a block placed by a miner does not pass the pool): no UTXO for a Quai-ledger payee
 			if heads++; !reorg && heads%3 == 0 {
